@@ -141,25 +141,30 @@ Theorem no_fault_in_unrecovered_code_partial : forall c : fpctx, fix_guard c = t
 Proof. exact fix_nofault. Qed.
 Print Assumptions no_fault_in_unrecovered_code_partial.
 
-(* What the controllers accept always has a positive step, a positive range and start <= end ... *)
-Theorem accepted_requests_have_safe_context : forall q sh c, prelude_of q = PRun sh c ->
-  match sh with
-  | ShRate | ShAggJson => 0 < f_step (p_fix c) /\ 0 < f_dur (p_fix c) /\ f_from (p_fix c) <= f_to (p_fix c)
-  | _ => True
-  end.
-Proof. exact accepted_context. Qed.
+(* What the controllers and the planner accept satisfies the whole guard: positive step and range, start <= end, at most
+   11,000 points per series and 100,000 range windows (the caps of fix 5180be1; before it the number of points was
+   unbounded and `start=0&step=1` ended in an allocation failure of the unrecovered goroutine). *)
+Theorem accepted_requests_have_safe_context : forall q sh c, prelude_of q = PRun sh c -> shape_guard sh c = true.
+Proof. exact accepted_guard. Qed.
 Print Assumptions accepted_requests_have_safe_context.
 
-(* ... but not a bounded number of points: "for every accepted request and every result set the unrecovered
-   bodies do not fault" is false. start=0, end=1.7e9 s, step=1 s on rate({..}[1m]) with one sample allocates
-   1.7e9 float64 per series: the allocation fails in a goroutine nothing can recover. *)
+(* Hence, for EVERY request that gets past the controller and the planner and EVERY result set: every interleaving of
+   its pipeline (client leaving at any moment) is finite, never crashes -- the goroutine without recover included --
+   and can only end with every goroutine returned. *)
+Theorem no_fault_in_unrecovered_code : forall q sh c rows, prelude_of q = PRun sh c ->
+  let c0 := init_config (map MRow rows) (stages_of sh c) in
+  Acc (fun c' c1 : config st msg => step c1 c') c0 /\
+  forall cf, star c0 cf -> crashed cf = false /\ (quiescent cf -> all_done (cells cf)).
+Proof. exact accepted_chain_terminates. Qed.
+Print Assumptions no_fault_in_unrecovered_code.
+
+(* the former witness of the refutation (start=0, end=1.7e9 s, step=1 s on rate({..}[1m])) is refused now *)
 Definition huge_range_request : request :=
   mkReq false true (Some ShRate) 60 (PNum 0) (PNum 1700000000) (PNum 1000) PAbsent
         [mkRow 1 1699999000000000000 2 ROk] (-1) false false.
-Theorem no_fault_in_unrecovered_code_refuted :
-  exists q sh c, prelude_of q = PRun sh c /\ model_outcome q = OCrash.
-Proof. exists huge_range_request. eexists _, _. split; vm_compute; reflexivity. Qed.
-Print Assumptions no_fault_in_unrecovered_code_refuted.
+Theorem unbounded_window_is_refused : model_outcome huge_range_request = O5xx.
+Proof. vm_compute. reflexivity. Qed.
+Print Assumptions unbounded_window_is_refused.
 
 (* ------------------------------------------------------------------ the remaining streaming endpoints (model/ReadFwd.v) *)
 
